@@ -79,7 +79,7 @@ def run(F, S, R, tier):
     def verifiers():
         pv = F.need(REL + "compact_block_verifier::PrefilledVerifier::verify")
         status_table(R, "cmp/prefilled/first", pv, [r"call:.*PrefilledTransaction::index$|call:.*index$"], [r"lit:0$"], {"<": "ERR", "=": "CONT", ">": "ERR"}, what="first prefilled index must be 0", min_sites=1, only_ops=("ne", "eq"))
-        status_table(R, "cmp/prefilled/range", pv, [r"call:.*index$"], [r"var:txs_len"], {"<": "CONT", "=": "ERR", ">": "ERR"}, what="last prefilled index must be < txs_len", arith=([], ["op:add"]))
+        status_table(R, "cmp/prefilled/range", pv, [r"call:.*index$"], [r"call:.*IndexTransactionVec::len$", r"call:.*ProposalShortIdVec::len$"], {"<": "CONT", "=": "ERR", ">": "ERR"}, what="last prefilled index must be < txs_len", arith=([], ["op:add"]))
         # order: a comparison whose two operands both come from PrefilledTransaction::index() (neither a literal nor a length)
         # must reject equality and exactly one strict side (idiom: pairwise loop; other idioms - windows(2).all(..), is_sorted_by(..) -
         # are not recognised and are reported as `no pairwise comparison`, which is a finding to review, never a silent pass)
@@ -125,7 +125,7 @@ def run(F, S, R, tier):
         else:
             R.bad("mustfail/prefilled/empty/anchor-lost", "is_empty guard not found in PrefilledVerifier", [pv.where()])
         sv = F.need(REL + "compact_block_verifier::ShortIdsVerifier::verify")
-        status_table(R, "cmp/shortids/dup", sv, [r"call:.*ProposalShortIdVec::len$|var:short_ids"], [r"call:.*HashSet::<.*>::len$"], {"<": "ERR", "=": "CONT", ">": "ERR"}, what="duplicated short ids are rejected")
+        status_table(R, "cmp/shortids/dup", sv, [r"call:.*ProposalShortIdVec::len$"], [r"call:.*HashSet::<.*>::len$"], {"<": "ERR", "=": "CONT", ">": "ERR"}, what="duplicated short ids are rejected")
         cv = F.need(REL + "compact_block_verifier::CompactBlockVerifier::verify")
         oks = {c.bb for c in cv.calls_to(r"Status::ok$")}
         K.mustcall(R, "mustcall/compact-verifier", cv, [REL + r"compact_block_verifier::PrefilledVerifier::verify$", REL + r"compact_block_verifier::ShortIdsVerifier::verify$"], S, ends=oks, allow_err_exits=False,
